@@ -434,8 +434,10 @@ R_GetConnectorSettings == On("GetConnectorSettings") /\
 -----------------------------------------------------------------------------
 (* write operations: mailboxes *)
 
+\* a name that exists (again) is no longer a deleted-but-subscribed name
 NewBox(d, r, n, fs, uv) ==
-  [d EXCEPT !.mb[d.nextBox] = [ex |-> TRUE, rid |-> r, name |-> n, uv |-> uv, sub |-> TRUE,
+  [d EXCEPT !.dsubs = {e \in @ : e.name # n},
+            !.mb[d.nextBox] = [ex |-> TRUE, rid |-> r, name |-> n, uv |-> uv, sub |-> TRUE,
                                fl |-> fs.fl, pf |-> fs.pf, at |-> fs.at, rows |-> <<>>, next |-> 1],
             !.nextBox = d.nextBox + 1]
 NewBoxRec(d, r, n, uv) == [id |-> d.nextBox, rid |-> r, name |-> n, uv |-> uv, sub |-> TRUE]
@@ -467,7 +469,7 @@ W_RenameMailboxWithRemoteID == On("RenameMailboxWithRemoteID") /\ \E r \in Arg(B
       tag == IF S = {} THEN "miss" ELSE IF BoxByName(db, n) \ S # {} THEN "name-taken"
              ELSE IF db.mb[Pick(S)].name = n THEN "same-name" ELSE "renamed" IN
   DoWrite("RenameMailboxWithRemoteID", [r |-> r, n |-> n], IF tag \in {"miss", "name-taken"} THEN Err ELSE Done,
-          Sh(0, 0, tag), [db EXCEPT !.mb[Pick(S)].name = n])
+          Sh(0, 0, tag), [db EXCEPT !.mb[Pick(S)].name = n, !.dsubs = {e \in @ : e.name # n}])
 
 \* deleted subscriptions: name -> remote id, both unique
 DSClash(S, n, r) == \E e \in S : e.rid = r /\ e.name # n
